@@ -74,3 +74,71 @@ func shapeClasses(n *model.Node) []string {
 	}
 	return cls
 }
+
+// outcome of running one case once against zog and the specification.
+type conformance struct {
+	spec    *model.SpecOut
+	expDest reflect.Value
+	res     *model.Result
+}
+
+// conform builds the case, runs the specification and runs zog reps times,
+// comparing issues (multiset), nil-ness, on success the whole destination
+// (pre-filled with sentinels in Parse when prefill is set) and the invocation
+// counts of recorder tests. It returns the first discrepancy.
+func conform(c model.Case, reps int, prefill, checkDest, checkRan bool) (*conformance, string, string) {
+	c.Root.Number()
+	env := &model.Env{}
+	schema, typ := model.Build(c.Root, env)
+	spec, exp := runSpec(c, newDest(typ, c, prefill))
+	out := &conformance{spec: spec, expDest: exp}
+	if spec.Unknown != "" {
+		return out, "", "spec-undetermined"
+	}
+	var in any
+	if c.Exec.Mode == "parse" {
+		in = c.Input.Go()
+	}
+	for r := 0; r < reps; r++ {
+		res := model.Run(schema, env, c.Exec, in, newDest(typ, c, prefill))
+		out.res = res
+		if res.Panic != nil {
+			return out, fmt.Sprintf("panic: %v", res.Panic), ""
+		}
+		got := res.Norm(false)
+		if !model.EqualIss(got, spec.Issues) {
+			return out, fmt.Sprintf("issues differ (run %d): got %s want %s", r, fmtIss(got), fmtIss(spec.Issues)), ""
+		}
+		if res.NoIssues() != (len(spec.Issues) == 0) {
+			return out, fmt.Sprintf("nil-ness: result nil=%v but %d violations expected", res.NoIssues(), len(spec.Issues)), ""
+		}
+		if checkDest && len(spec.Issues) == 0 && !spec.DestUnknown {
+			g, w := model.CanonJSON(res.Dest.Elem()), model.CanonJSON(exp)
+			if g != w {
+				return out, fmt.Sprintf("destination differs (run %d): got %s want %s", r, g, w), ""
+			}
+		}
+		if checkRan {
+			ran := map[int]int{}
+			for _, ev := range res.Log {
+				switch ev.Kind {
+				case "test":
+					ran[ev.Node*1000+ev.Idx]++
+				case "custom":
+					ran[ev.Node*1000+999]++
+				}
+			}
+			for k, v := range spec.Ran {
+				if ran[k] != v {
+					return out, fmt.Sprintf("test n%d#%d ran %d times, expected %d (run %d)", k/1000, k%1000, ran[k], v, r), ""
+				}
+			}
+			for k, v := range ran {
+				if spec.Ran[k] != v {
+					return out, fmt.Sprintf("test n%d#%d ran %d times, expected %d (run %d)", k/1000, k%1000, v, spec.Ran[k], r), ""
+				}
+			}
+		}
+	}
+	return out, "", ""
+}
